@@ -225,6 +225,7 @@ class LookupProfile(HistoryProfile):
     cfg["alt_text_p"] = rng.choice([0.0, 0.03])
     cfg["max_rows"] = rng.choice([6, 10, 14])
     cfg["blank_sort_p"] = rng.choice([0.0, 0.1, 0.25])
+    cfg["alt_sort_p"] = rng.choice([0.0, 0.0, 0.1, 0.2])
     return cfg
 
   def check(self, sim, out, st):
@@ -475,6 +476,13 @@ class C28(HistoryProfile):
     vcols = rng.choice([["v"], ["w"], ["v", "w"], [], ["v"], ["k2", "v"], ["e"]])
     vcols = [c for c in vcols if c not in rcols]
     require = {c: [self._val(rng, c, rows) for _ in range(n)] for c in rcols}
+    if n >= 2 and "k1" in require and rng.random() < 0.25:
+      # the same key spelled as int and as float (and bool): equal values, one key
+      v = require["k1"][0]
+      require["k1"][1] = rng.choice([float(v), v, bool(v) if v in (0, 1) else float(v)])
+      for c in rcols:
+        if c != "k1":
+          require[c][1] = require[c][0]
     values = {c: [self._val(rng, c, rows) for _ in range(n)] for c in vcols}
     opts = {}
     if rng.random() < 0.4:
@@ -662,7 +670,7 @@ UNION_POOL = [0, 1, -1, 2.5, 1e10, "", "a", "abc", "1", "2.5", "true", "2020-01-
               ["L", "a", "b"], ["L"], ["L", 1, 2], 1577923200, 86400.5, "1e3", " 7 ", "é", "[1, 2]",
               '["a"]', "0", "no", 10 ** 12,
               # the same number as int and as float: equal, hash alike, convert differently
-              1.0, 2, 2.0, 3, 3.0]
+              1.0, 2, 2.0, 3, 3.0, float("nan"), "nan", float("inf")]
 
 
 def op_modify_type_any(g, dv, protected):
@@ -1014,6 +1022,11 @@ VALID_TEMPLATES = [
   'with __import__("contextlib").nullcontext("""a\nb""") as v:\n  w = len(v)\nw + ${a}',
   '{"""k\n1""": ${a}}', 'f"""{${a}}\n  x"""', '("""a\nb""", ${a})[0]', 'x = ["""l\n m""" for _ in range(2)]\nx[1]',
   'len("""\n\n""") if ${a} else """\n"""',
+  # the only `return`s sit in places a statement walk may forget (handlers, match cases)
+  "try:\n  v = 10 // (${a} or 0)\nexcept ZeroDivisionError:\n  return 'inf'",
+  "try:\n  v = int(${s})\nexcept (ValueError, TypeError):\n  return -1\nelse:\n  w = v + 1",
+  "match ${a}:\n  case 1:\n    return 'one'\n  case _:\n    return 'other'",
+  "for i in range(2):\n  try:\n    int('x')\n  except ValueError:\n    return i",
 ]
 
 
